@@ -29,7 +29,9 @@ def make_scratch(which=('necessity.rs',)):
     for f in ('main.rs', 'args.rs'):
         p = os.path.join(d, 'src', f)
         if os.path.exists(p): os.remove(p)
-    shutil.copy(os.path.join(REPO, 'Cargo.lock'), os.path.join(d, 'Cargo.lock'))
+    lock = os.path.join(REPO, 'Cargo.lock')
+    if not os.path.exists(lock): lock = '/repo/Cargo.lock'          # scratch worktrees do not carry the untracked lock file
+    shutil.copy(lock, os.path.join(d, 'Cargo.lock'))
     open(os.path.join(d, 'Cargo.toml'), 'w').write(CARGO_TOML)
     for f in which:
         with open(os.path.join(d, 'src', f), 'a') as fh: fh.write(APPEND[f])
